@@ -1277,8 +1277,8 @@ class QvmCpu:
             self.trap(TrapCode.NULL_REFERENCE, scope='local', idx=idx)
         if value.type != CellType.REFERENCE:
             self.trap(TrapCode.TYPE_MISMATCH,
-                      expected_type=CellType.REFERENCE,
-                      got_type=value.type)
+                      expected=CellType.REFERENCE,
+                      got=value.type)
         self.push(CellType.REFERENCE, value.value)
 
     def _exec_readg_reference(self, idx):
@@ -1292,8 +1292,8 @@ class QvmCpu:
             self.trap(TrapCode.NULL_REFERENCE, scope='global', idx=idx)
         if value.type != CellType.REFERENCE:
             self.trap(TrapCode.TYPE_MISMATCH,
-                      expected_type=CellType.REFERENCE,
-                      got_type=value.type)
+                      expected=CellType.REFERENCE,
+                      got=value.type)
         self.push(CellType.REFERENCE, value.value)
 
     def _exec_refidx(self):
